@@ -23,7 +23,9 @@ func readErrFlow(c *Ctx, readCalls M, readPred func(ssa.Value) bool) *Flow {
 		Edge("is-unexpected-eof", ErrorsIsGuard("ErrUnexpectedEOF"))
 }
 
-func runC19(c *Ctx) {
+func runC19(c *Ctx) { runC19Core(c) }
+
+func runC19Core(c *Ctx) {
 	// ---- C19.S1 -----------------------------------------------------------
 	if fn := c.Fn("C19.S1", "wal.(*virtualWALReader).nextRecord"); fn != nil {
 		reads := Or(CallTo("rec.(*Reader).Next"), CallTo("io.Copy"))
